@@ -461,3 +461,33 @@ pub fn builder_node(c: &Consensus, ancestors: &[BlockView]) -> Node {
 pub fn hex8(h: &Byte32) -> String {
     format!("{:x}", h)[..8].to_string()
 }
+
+/// Growth (tx relay): a temp-db node that keeps the receiving end of the pool's `tx_relay_sender` channel, i.e. the
+/// verdicts (`TxVerificationResult`) the relayer would get.  Same start-up as `Node::start` with `root: None`.
+pub fn start_with_relay(cfg: &NodeCfg) -> (Node, ckb_channel::Receiver<ckb_tx_pool::service::TxVerificationResult>) {
+    assert!(cfg.root.is_none(), "start_with_relay: temp db only");
+    let mut b = SharedBuilder::with_temp_db().consensus(cfg.consensus.clone());
+    if let Some(sc) = &cfg.store {
+        b = b.store_config(sc.clone());
+    }
+    let (shared, mut pack) = b
+        .tx_pool_config(cfg.tx_pool.clone().unwrap_or_default())
+        .block_assembler_config(if cfg.assembler { Some(assembler_config()) } else { None })
+        .build()
+        .unwrap();
+    let relay_rx = pack.take_relay_tx_receiver();
+    let network = dummy_network(&shared);
+    pack.take_tx_pool_builder().start(network);
+    let chain = ChainServiceScope::new(pack.take_chain_services_builder());
+    while chain.chain_controller().is_verifying_unverified_blocks_on_startup() {
+        std::thread::sleep(std::time::Duration::from_millis(5));
+    }
+    let node = Node {
+        chain,
+        shared,
+        submitted: Arc::new(AtomicUsize::new(0)),
+        answered: Arc::new(AtomicUsize::new(0)),
+        verdicts: Arc::new(Mutex::new(vec![])),
+    };
+    (node, relay_rx)
+}
